@@ -39,4 +39,12 @@ CHECKS["C08"] = {"text": "Proved on the model: after a run with log initialisati
     "backward_simulate and reverse_log_information are not yet part of the model: they are checked by the oracle on the implementation only (partial).",
     "note": COMMON_NOTE + " PARTIAL: backward simulation and log reversal are searched (oracle on implementation traces), not proved.",
     "technique": "Coq proof: logs as maps over a ghost history, induction over traces and over operation sequences; oracle + correspondence on operation sequences"}
+CHECKS["C02"] = {"text": "Proved on the model for every configuration, option set and run length: in the perform phase a WORKING task loses exactly the contribution of "
+    "what is allocated to it (unit rate for automatic tasks; sum of worker skills; worker x paired facility skill; nothing from a resource without skill or in ABSENCE; "
+    "at absence steps only automatic tasks and only with the flag), every other task and every other phase leaves remaining work unchanged except that __update sets it to 0 "
+    "for the tasks it finishes; a task is finished only when its remaining work is below the tolerance; after __update no WORKING task with exhausted work has an open finish gate "
+    "(fixpoint of the finishing pass, fuel of the model's loop shown sufficient); FINISHED tasks report 0 (exempt ones excepted) in every snapshot; initial value work*(1-progress); "
+    "the log entry is the live value at record time.",
+    "note": COMMON_NOTE + " The division of a worker's skill by its number of WORKING assigned tasks is kept in the model as in the code; that this number is 1 follows from C03's exclusivity.",
+    "technique": "Coq proof: phase-by-phase characterisation + inductive invariant + termination measure for the finishing fixpoint; model/implementation correspondence (remaining work, states, allocations at all phases)"}
 NOT_APPLICABLE = {}
